@@ -240,6 +240,13 @@ pub fn cfg() -> GenCfg {
 pub fn run(ctx: &Ctx) {
     let cases = ctx.tier.pick(24_000, 1_200_000);
     ctx.run_prop("lib", cases, 16, || workspace(cfg()).prop_map(|ws| Case { ws }), |c, info| check_case(&c.ws, info));
+    // bounded-exhaustive: every assignment of one name to the 8 provider slots, two analysis orders
+    let all = crate::exh::all_plain();
+    ctx.set_extra("exhaustive_subcheck", serde_json::json!(format!("slots: all {} (assignment of one fixture name to 8 provider slots x 2 analysis orders) enumerated", all.len())));
+    ctx.run_enum("slots", all, 16, |c, info| {
+        info.classes.push(format!("slots: {} providers", c.mask.count_ones()));
+        check_case(&crate::exh::slot_workspace(&cfg(), c), info)
+    });
     ctx.run_prop_shrink("lsp", ctx.tier.pick(120, 3000), 8, 150, || workspace(lsp_cfg()).prop_map(|ws| Case { ws }), |c, info| {
         crate::props::lsp_tiers::c01_definition(ctx, &c.ws, info)
     });
@@ -260,6 +267,11 @@ pub fn judge(ctx: &Ctx, sub: &str, case: &Value) -> Option<Outcome> {
             let c: Case = from_case(case)?;
             let mut info = CaseInfo::default();
             Some(check_case(&c.ws, &mut info))
+        }
+        "slots" => {
+            let c: crate::exh::SlotCase = from_case(case)?;
+            let mut info = CaseInfo::default();
+            Some(check_case(&crate::exh::slot_workspace(&cfg(), &c), &mut info))
         }
         _ => None,
     }
